@@ -7,6 +7,7 @@ import (
 	"fmt"
 	"strconv"
 	"strings"
+	"unicode/utf8"
 
 	goerrors "github.com/ajitpratap0/GoSQLX/pkg/errors"
 	"github.com/ajitpratap0/GoSQLX/pkg/models"
@@ -794,8 +795,18 @@ func (p *Parser) parseSelectStatement() (ast.Statement, error) {
 				// Subsequent joins: (previous result) JOIN C
 				// We represent this by using a synthetic table reference that indicates
 				// the left side is the result of previous joins
+				// (the label embeds a bounded prefix of the first table's name:
+				// a copy of a long name per join would cost name x joins memory)
+				base := tableRef.Name
+				if len(base) > 64 {
+					n := 64
+					for n > 0 && !utf8.RuneStart(base[n]) {
+						n--
+					}
+					base = base[:n]
+				}
 				leftTable = ast.TableReference{
-					Name:  fmt.Sprintf("(%s_with_%d_joins)", tableRef.Name, len(joins)),
+					Name:  fmt.Sprintf("(%s_with_%d_joins)", base, len(joins)),
 					Alias: "",
 				}
 			}
